@@ -334,4 +334,15 @@ theorem gen_apply_order :
     Gen.applyCalls = ["OpenLTXFile", "LockFileExclusive", "DecodePage", "WriteAt", "Sync", "Truncate", "Sync"] := by
   first | decide | rfl
 
+/-- `follow` decodes the page size of every legal SQLite page size correctly, 65536 included. -/
+theorem decodePageSize_legal :
+    ∀ ps ∈ [512, 1024, 2048, 4096, 8192, 16384, 32768, 65536],
+      decodePageSize (encodePageSize ps).1 (encodePageSize ps).2 = ps := by decide
+
+/-- (T) tie: the decode expression and its 64 KiB special case regenerated from `follow`
+    (replica.go) are the model's. -/
+theorem gen_follow_page_size : ∀ b0 b1, Gen.followPageSize b0 b1 = decodePageSize b0 b1 := by
+  intro b0 b1
+  first | rfl | (simp [Gen.followPageSize, decodePageSize])
+
 end Litestream.C16
